@@ -1059,7 +1059,7 @@ func addFaults(r *core.RNG, sc *cliScenario, x *cliExec) *cliScenario {
 	}
 	traceOf := func(step int) []simos.OpRec {
 		for _, s := range x.steps {
-			if s.idx == step {
+			if s.idx == step && !s.nested {
 				return s.trace
 			}
 		}
@@ -1082,7 +1082,52 @@ func addFaults(r *core.RNG, sc *cliScenario, x *cliExec) *cliScenario {
 				}
 			}
 		}
-		switch r.Pick([]int{36, 22, 30, 12}) {
+		switch r.Pick([]int{36, 22, 30, 12, 16}) {
+		case 4: // another gts runs while this one is held at one of its operations
+			if len(tr) == 0 {
+				continue
+			}
+			// the same invocation (two shells, a script started twice), one
+			// of the history's other invocations, or a purge
+			inner := &runStep{Argv: append([]string(nil), rs.Argv...), Stdin: rs.Stdin, Chunks: rs.Chunks, StdinFile: rs.StdinFile, StdinOffset: rs.StdinOffset}
+			switch r.Intn(6) {
+			case 0, 1:
+				o := c.Steps[runs[r.Intn(len(runs))]].Run
+				inner = &runStep{Argv: append([]string(nil), o.Argv...), Stdin: o.Stdin, Chunks: o.Chunks, StdinFile: o.StdinFile, StdinOffset: o.StdinOffset}
+			case 2:
+				inner = &runStep{Argv: []string{"cache", "purge"}}
+			}
+			// the inner one writes to its standard output only: the user
+			// files the outer one is judged on stay as they are
+			writesFile := false
+			for _, a := range inner.Argv {
+				if a == "-o" || strings.HasPrefix(a, "--output") || strings.HasPrefix(a, "-o") && len(a) > 2 {
+					writesFile = true
+				}
+			}
+			if writesFile {
+				continue
+			}
+			at := r.Intn(len(tr))
+			if r.Chance(3, 4) {
+				var cand []int
+				for i, o := range tr {
+					if o.Class == "cache" {
+						cand = append(cand, i)
+					}
+				}
+				if len(cand) > 0 {
+					at = cand[r.Intn(len(cand))]
+				}
+			}
+			if r.Chance(1, 6) && len(tr) > 4 {
+				// and a third one inside the second
+				in2 := &runStep{Argv: append([]string(nil), rs.Argv...), Stdin: rs.Stdin, Chunks: rs.Chunks, StdinFile: rs.StdinFile, StdinOffset: rs.StdinOffset}
+				a2, _ := json.Marshal(outsideEvent{Nested: in2})
+				inner.Faults = append(inner.Faults, simos.Fault{AtOp: r.Intn(len(tr)), Kind: "overlap", Arg: string(a2)})
+			}
+			arg, _ := json.Marshal(outsideEvent{Nested: inner})
+			rs.Faults = append(rs.Faults, simos.Fault{AtOp: at, Kind: "overlap", Arg: string(arg)})
 		case 3: // another program rewrites an input file while gts is reading it
 			var files []string
 			for _, a := range rs.Argv {
@@ -1159,7 +1204,7 @@ func addFaults(r *core.RNG, sc *cliScenario, x *cliExec) *cliScenario {
 		case 2: // the output accepts only B bytes (same B for the reference)
 			var outLen int
 			for _, s := range x.steps {
-				if s.idx == si {
+				if s.idx == si && !s.nested {
 					outLen = len(s.ref.Stdout)
 				}
 			}
@@ -1206,6 +1251,127 @@ func addFaults(r *core.RNG, sc *cliScenario, x *cliExec) *cliScenario {
 	return c
 }
 
+// addParallel turns one step of a fault-free history into several
+// invocations that run at the same time (see zz_verif_c14par.go), aimed by
+// the trace of the first execution.
+func addParallel(r *core.RNG, sc *cliScenario, x *cliExec) *cliScenario {
+	c := sc.clone()
+	c.Mode = "c14-par"
+	toStdout := func(rs *runStep) bool {
+		for _, a := range rs.Argv {
+			if a == "-o" || strings.HasPrefix(a, "--output") || strings.HasPrefix(a, "-o") && len(a) > 2 {
+				return false
+			}
+		}
+		return true
+	}
+	var runs []int
+	for i, s := range c.Steps {
+		// the parties write to their standard output only: the user files
+		// every one of them is judged on stay as they are
+		if s.Run != nil && len(s.Run.Argv) > 0 && s.Run.Argv[0] != "cache" && toStdout(s.Run) {
+			runs = append(runs, i)
+		}
+	}
+	if len(runs) == 0 {
+		return nil
+	}
+	si := runs[r.Intn(len(runs))]
+	rs := c.Steps[si].Run
+	var tr []simos.OpRec
+	for _, s := range x.steps {
+		if s.idx == si && !s.nested {
+			tr = s.trace
+		}
+	}
+	if len(tr) == 0 {
+		return nil
+	}
+	same := func(o *runStep) *runStep {
+		return &runStep{Argv: append([]string(nil), o.Argv...), Stdin: o.Stdin, Chunks: o.Chunks, StdinFile: o.StdinFile, StdinOffset: o.StdinOffset}
+	}
+	par := &parStep{Runs: []*runStep{same(rs)}}
+	other := func() *runStep {
+		switch r.Intn(8) {
+		case 0:
+			return same(c.Steps[runs[r.Intn(len(runs))]].Run)
+		case 1:
+			return &runStep{Argv: []string{"cache", "purge"}}
+		}
+		// the same invocation: two shells, a script started twice
+		return same(rs)
+	}
+	par.Runs = append(par.Runs, other())
+	if r.Chance(1, 2) {
+		par.Runs = append(par.Runs, other())
+	}
+	n := len(par.Runs)
+	if r.Chance(1, 5) {
+		// one of them is killed on the way
+		k := r.Intn(n)
+		par.Runs[k].Faults = []simos.Fault{{AtOp: r.Intn(len(tr)), Kind: "kill"}}
+	} else if r.Chance(1, 5) {
+		// one of them writes to a reader that goes away (| head)
+		k := r.Intn(n)
+		var outLen int
+		for _, s := range x.steps {
+			if s.idx == si && !s.nested {
+				outLen = len(s.ref.Stdout)
+			}
+		}
+		if outLen > 0 {
+			b := r.Intn(outLen)
+			par.Runs[k].SinkLimit, par.Runs[k].SinkErr = &b, "epipe"
+		}
+	}
+	const toTheEnd = 1 << 30
+	switch r.Intn(3) {
+	case 0:
+		// the stalled writer: one gets somewhere and waits, another gets less
+		// far and waits, the first finishes, the others follow
+		a := 1 + r.Intn(len(tr))
+		b := 1 + r.Intn(a)
+		if r.Chance(1, 3) {
+			b = 1 + r.Intn(len(tr))
+		}
+		par.Schedule = [][2]int{{0, a}, {1, b}, {0, toTheEnd}}
+		if n > 2 {
+			par.Schedule = append(par.Schedule, [2]int{2, toTheEnd})
+		}
+	case 1:
+		// bursts
+		budget := n * len(tr)
+		for budget > 0 {
+			l := []int{1, 1, 2, 3, 5, 8, 20, 60, 200}[r.Intn(9)]
+			par.Schedule = append(par.Schedule, [2]int{r.Intn(n), l})
+			budget -= l
+		}
+	default:
+		// switches at operations on the cache directory only: everybody runs
+		// up to such an operation, then they take turns one operation at a time
+		var cacheOps []int
+		for i, o := range tr {
+			if o.Class == "cache" {
+				cacheOps = append(cacheOps, i)
+			}
+		}
+		if len(cacheOps) == 0 {
+			return nil
+		}
+		first := cacheOps[r.Intn(len(cacheOps))]
+		for k := 0; k < n; k++ {
+			par.Schedule = append(par.Schedule, [2]int{k, first + 1})
+		}
+		for t := r.Range(4, 60); t > 0; t-- {
+			par.Schedule = append(par.Schedule, [2]int{r.Intn(n), r.Range(1, 3)})
+		}
+	}
+	c.Steps[si] = cliStep{Par: par}
+	// and afterwards the same invocation once more, alone
+	c.Steps = append(c.Steps, cliStep{Run: same(rs)})
+	return c
+}
+
 // ---- the engine ----
 
 type c14Engine struct{}
@@ -1214,7 +1380,7 @@ func (c14Engine) Meta() core.Meta {
 	return core.Meta{
 		Property:   "C14",
 		Level:      "exploration",
-		NonVacuous: []string{"warm_hit_served", "invalid_entry_rearmed", "failure_after_cache_writer_armed", "stdin_spooled_to_temp_file", "input_given_as_named_pipe", "option_value_with_bytes_that_are_not_utf8"},
+		NonVacuous: []string{"warm_hit_served", "invalid_entry_rearmed", "failure_after_cache_writer_armed", "stdin_spooled_to_temp_file", "input_given_as_named_pipe", "option_value_with_bytes_that_are_not_utf8", "invocations_at_the_same_time", "invocation_ran_inside_another"},
 		Rule: "Each simulated run draws a history of 1-4 (thorough 1-6) gts invocations from its seed, built around one anchor invocation of one of the 19 " +
 			"cached subcommands with seeded options, positionals, input (corpus records, multi-record, FASTA, invalid second record, garbage tail, empty), " +
 			"stdin as pipe (seeded chunk schedule), redirected file at an offset or tty+path, inputs also as named pipes, option values also as byte strings that are not UTF-8, stdout or -o (names with many extensions), -F, and environment (cache dir ok / undefined / uncreatable / read-only / on a file system with N bytes of room, temp dir " +
@@ -1222,14 +1388,15 @@ func (c14Engine) Meta() core.Meta {
 			"process (real command code, real TryCache, real cmd/cache) on the shared simulated disk and is compared with the same argv + --no-cache on a " +
 			"pristine machine: stdout bytes, exit status, every user file. The history is then executed again with faults aimed by the first execution's " +
 			"trace: kill at an operation (torn write), EIO/ENOSPC/EACCES/ENOENT on a cache-dir or temp-dir operation, stdout accepting only B bytes and then failing with ENOSPC, EIO or EPIPE (SIGPIPE unless ignored); the faulted " +
-			"step itself is never judged, every later fault-free step is. A case is one judged step; it is non-trivial when its state key is new.",
+			"step itself is never judged, every later fault-free step is. A quarter of the histories are executed a third time with one step turned into 2-3 invocations that run at the same time " +
+			"(the same invocation twice or three times, another one of the history, a purge; one may be killed or lose its reader) under a seeded schedule: the stalled writer, bursts, or turns of 1-3 operations from a cache-directory operation on. A case is one judged step; it is non-trivial when its state key is new.",
 		StateRule: "distinct (mode, subcommand, option-flag set, stdin mode, cache outcome {uncached, miss-armed, hit, armed-failed, killed} read off the event trace, exit status, sink, first fault fired)",
 		Assumptions: []string{
 			"the simulated os reproduces what the real binary sees (differential self-tests: ./check selftest simfs, ./check selftest fidelity)",
 			"stderr text, cache directory contents and leftover temp files are not part of the statement and are not compared",
 			"a step hit by an injected fault is never judged; every later step is, whatever the fault was",
 			"environments are the same for the cached and the reference run and are judged strictly",
-			"concurrent gts commands are explored for the cache library only (C13, concurrent parties)",
+			"invocations at the same time: 2-3 real mains on one simulated machine under a seeded schedule of (party, operations) grants, and one invocation run whole while another is held at an operation; every party but `gts cache purge` is judged like any other step",
 		},
 		Real: []string{"every command function of cmd/gts incl. argument parsing via go-gts/flags", "cmd/gts TryCache, ioDelegate, attachment, encodePayload", "cmd/cache",
 			"seqio, gts, pars, wrap, ascii, flip", "compress/flate, crypto/sha1, encoding/json, bufio"},
@@ -1275,6 +1442,16 @@ func (c14Engine) RunSeed(tier string, seed uint64, idx int) *core.Result {
 			digest += y.w.Log.Digest()
 			if idx%50 == 1 {
 				res.Sample = wrapC14(fsc)
+			}
+		}
+	}
+	if r.Chance(1, 4) {
+		if psc := addParallel(r, sc, x); psc != nil {
+			y := execCli("C14", psc, res, wrapC14)
+			vs = append(vs, y.vs...)
+			digest += y.w.Log.Digest()
+			if idx%50 == 2 {
+				res.Sample = wrapC14(psc)
 			}
 		}
 	}
